@@ -44,7 +44,12 @@ func (t *textFlow) walk(v ssa.Value, d int) {
 	t.steps++
 	c := t.c
 	switch x := v.(type) {
-	case *ssa.Const, *ssa.Global:
+	case *ssa.Const:
+		return
+	case *ssa.Global:
+		if pos, isCSV := c.csvFlagVars()[x]; isCSV {
+			t.bad("the text is the value of a flag registered with a comma-splitting pflag type at %s (StringSlice/StringToString parse every value as CSV: a comma splits the text, surrounding quotes are eaten, a leading quote can make the command fail); StringArray keeps values verbatim", pos)
+		}
 		return
 	case *ssa.Phi:
 		for _, e := range x.Edges {
@@ -224,8 +229,11 @@ func (t *textFlow) walkCall(cl *ssa.Call, idx int, d int) {
 			}
 		}
 		return // a source: the environment
-	case "(*github.com/spf13/pflag.FlagSet).GetString", "os.Getwd", "os.UserHomeDir":
+	case "(*github.com/spf13/pflag.FlagSet).GetString", "os.Getwd", "os.UserHomeDir", "(*github.com/spf13/pflag.FlagSet).GetStringArray":
 		return // sources: a flag's value, the process
+	case "(*github.com/spf13/pflag.FlagSet).GetStringSlice", "(*github.com/spf13/pflag.FlagSet).GetStringToString":
+		t.bad("the text is read with %s at %s: pflag parses every value of such a flag as CSV (a comma splits the text, surrounding quotes are eaten); StringArray keeps values verbatim", name[strings.LastIndex(name, ".")+1:], c.Pos(cl.Pos()))
+		return
 	}
 	// call through a func-typed parameter: the identity resolver idiom
 	if prm, ok := resolve(cl.Call.Value).(*ssa.Parameter); ok && !cl.Call.IsInvoke() {
@@ -681,4 +689,37 @@ func (c *Ctx) onlyFromStringFlag(v ssa.Value, d int) bool {
 		return true
 	}
 	return false
+}
+
+// csvFlagVars: the package-level variables bound to a pflag flag of a comma-splitting type
+// (StringSliceVar[P], StringToStringVar[P]) anywhere in the module, with the position of the registration.
+func (c *Ctx) csvFlagVars() map[*ssa.Global]string {
+	if c.csvFlagMemo != nil {
+		return c.csvFlagMemo
+	}
+	out := map[*ssa.Global]string{}
+	for _, f := range c.Fns {
+		if !c.InModule(f) || f.Blocks == nil {
+			continue
+		}
+		for _, call := range callsIn(f) {
+			n := calleeFullName(call.Common())
+			if !strings.HasPrefix(n, "(*github.com/spf13/pflag.FlagSet).") {
+				continue
+			}
+			m := n[strings.LastIndex(n, ".")+1:]
+			if !(strings.HasPrefix(m, "StringSliceVar") || strings.HasPrefix(m, "StringToStringVar")) {
+				continue
+			}
+			args := call.Common().Args
+			if len(args) < 2 {
+				continue
+			}
+			if g, ok := args[1].(*ssa.Global); ok {
+				out[g] = c.Pos(call.Pos())
+			}
+		}
+	}
+	c.csvFlagMemo = out
+	return out
 }
